@@ -762,6 +762,70 @@ fn gen_c11(ctx: &Ctx, rng: &mut Rng, cases: &mut Vec<Case>) {
         let text = decorate(rng, &render_idl(&g), style).concat();
         cases.push(case_of(&text, &["dup-random"]));
     }
+    // (6) nesting through every type constructor (accept/reject judged by the specification's recogniser)
+    let mut deep: Vec<(usize, String, &'static str)> = Vec::new();
+    let depths: Vec<usize> = if ctx.thorough { vec![1, 2, 3, 4, 6, 8, 12, 16, 24, 32, 64] } else { vec![1, 2, 3, 5, 8, 16, 32] };
+    deep_struct_families(&depths, &mut deep);
+    deep.sort_by_key(|(d, _, _)| *d);
+    for (d, t, tag) in deep {
+        cases.push(Case {
+            input: sx::tagged("idl-deep", vec![sx::nat(d), sx::xs(&t)]),
+            tags: vec!["nesting".into(), tag.to_string()],
+        });
+    }
+}
+
+/// Anonymous structs nested through EVERY type constructor that can nest:
+/// `(a: P(a: P( … P(<leaf>) … )))` with P one of "", "?", "[]", "[]?", "[string]", "[string]?", "?[]",
+/// "?[string]" or all of them in rotation; six leaves (valid, trailing comma, syntax error, enum leaf,
+/// enum leaf with trailing comma, missing comma); as a typedef body and as a method result.
+/// A grammar that re-reads a level when an alternative fails doubles its cost per level: the
+/// per-case deadline sees it from depth ~20 on.
+pub fn deep_struct_families(depths: &[usize], out: &mut Vec<(usize, String, &'static str)>) {
+    const PREFIXES: &[&[&str]] = &[
+        &[""],
+        &["?"],
+        &["[]"],
+        &["[]?"],
+        &["[string]"],
+        &["[string]?"],
+        &["?[]"],
+        &["?[string]"],
+        &["", "?", "[]", "[]?", "[string]", "[string]?", "?[]", "?[string]"],
+    ];
+    const LEAVES: &[(&str, &str)] = &[
+        ("a: int", "deep-struct:valid"),
+        ("a: int,", "deep-struct:trailing-comma"),
+        ("a: !", "deep-struct:syntax-error"),
+        ("a: (x, y)", "deep-struct:valid-enum-leaf"),
+        ("a: (x, y,)", "deep-struct:trailing-comma-enum-leaf"),
+        ("a: int b", "deep-struct:missing-comma"),
+    ];
+    let hdr = "interface a.b\n";
+    for &d in depths {
+        for fam in PREFIXES {
+            for (leaf, tag) in LEAVES {
+                let mut s = String::new();
+                for lvl in 0..d.saturating_sub(1) {
+                    s.push_str("(a: ");
+                    s.push_str(fam[lvl % fam.len()]);
+                }
+                s.push('(');
+                s.push_str(leaf);
+                s.push(')');
+                for _ in 0..d.saturating_sub(1) {
+                    s.push(')');
+                }
+                out.push((d, format!("{}type T {}", hdr, s), tag));
+                out.push((d, format!("{}method M() -> {}", hdr, s), tag));
+                // truncated in the middle of the closing parentheses
+                if *tag == "deep-struct:valid" && d > 2 {
+                    let cut = s.len() - d / 2;
+                    out.push((d, format!("{}type T {}", hdr, &s[..cut]), "deep-struct:truncated"));
+                }
+            }
+        }
+    }
 }
 
 fn nested(open: &str, close: &str, leaf: &str, depth: usize) -> String {
@@ -901,27 +965,12 @@ fn gen_c12(ctx: &Ctx, rng: &mut Rng, cases: &mut Vec<Case>) {
             deep.push((d, t, "nesting"));
         }
     }
-    //     anonymous structs `(a: (a: (… )))`: valid, trailing comma / syntax error at the innermost level
-    //     (a grammar that re-reads a level on failure doubles its cost per level: the deadline sees it)
     let sdepths: Vec<usize> = if ctx.thorough {
         (2..=40).step_by(2).chain([48usize, 64, 96, 128, 160, 200]).collect()
     } else {
         vec![8, 16, 20, 24, 32, 64, 200]
     };
-    for d in sdepths {
-        let hdr = "interface a.b\n";
-        for (leaf, tag) in [
-            ("a: int", "deep-struct:valid"),
-            ("a: int,", "deep-struct:trailing-comma"),
-            ("a: !", "deep-struct:syntax-error"),
-            ("a: (x, y)", "deep-struct:valid-enum-leaf"),
-            ("a: (x, y,)", "deep-struct:trailing-comma-enum-leaf"),
-            ("a: int b", "deep-struct:missing-comma"),
-        ] {
-            deep.push((d, format!("{}type T {}", hdr, nested("(a: ", ")", &format!("({})", leaf), d - 1)), tag));
-            deep.push((d, format!("{}method M() -> {}", hdr, nested("(a: ", ")", &format!("({})", leaf), d - 1)), tag));
-        }
-    }
+    deep_struct_families(&sdepths, &mut deep);
     deep.sort_by_key(|(d, _, _)| *d);
     for (d, t, tag) in deep {
         cases.push(Case {
